@@ -291,7 +291,8 @@ def c11(tier):
                     texts[cur] += line
             for variant in ("plain", "invalid-utf8-sibling", "directory-named-xsd", "dangling-symlink", "fifo-like-empty", "uppercase-extension",
                             "every-sibling-a-symlink", "file-names-with-dots-and-non-ascii", "sibling-name-not-utf8",
-                            "every-file-starts-with-a-byte-order-mark", "siblings-start-with-a-byte-order-mark"):
+                            "every-file-starts-with-a-byte-order-mark", "siblings-start-with-a-byte-order-mark",
+                            "siblings-with-xml-schema-as-default-namespace"):
                 d = os.path.join(droot, f"g{k}-{variant}")
                 os.makedirs(d)
                 if variant == "file-names-with-dots-and-non-ascii":
@@ -317,6 +318,9 @@ def c11(tier):
                             fh.write(t)
                         os.symlink(os.path.join(real, "real-" + name + ".txt"), os.path.join(d, name))
                         continue
+                    if variant == "siblings-with-xml-schema-as-default-namespace" and name != f"f{s}.xsd":
+                        # the same schema spelt without a prefix for XML Schema: <schema xmlns="…XMLSchema">, type="string"
+                        t = t.replace("<xs:", "<").replace("</xs:", "</").replace('xmlns:xs="', 'xmlns="').replace('="xs:', '="')
                     with open(os.path.join(d, name), "w") as fh:
                         # (the mark Windows editors put in front of <?xml: U+FEFF, three bytes in UTF-8)
                         if variant == "every-file-starts-with-a-byte-order-mark" or (variant == "siblings-start-with-a-byte-order-mark" and name != f"f{s}.xsd"):
@@ -1103,6 +1107,34 @@ def c13(tier):
             fingerprints.add((m["label"].split(":", 1)[0], opclass, key))
         if len(samples) < 8 and i % 7 == 0 and m["ops"] != ["grammar"]:
             samples.append({"seed_document": m["label"], "mutations": m["ops"], "outcome": key})
+    # the families whose verdict depends on the size of a stack frame, once more with an unoptimised build (what a user's debug
+    # build is: a limit that keeps the stack safe at opt-level 1 may not at opt-level 0)
+    STACK_FAMILIES = ("deep-", "dtd-", "forward-", "import-chain", "recursion", "same-named", "colliding-namespaces")
+    zdrive0 = common.build_tool_unoptimised("zdrive")
+    sjobs, smeta = [], []
+    for job, m in zip(jobs, meta):
+        if m["label"].startswith("grammar:") and m["label"].split(":", 1)[1].startswith(STACK_FAMILIES):
+            sjobs.append(dict(job, id=len(sjobs), cpu_budget_s=max(job.get("cpu_budget_s", 10) * 6, 120)))
+            smeta.append(m)
+    sresults = common.run_jobs(zdrive0, sjobs, nworkers=16, wall_timeout=900)
+    unoptimised = {"cases": len(sjobs), "died": 0, "panicked": 0, "watchdog": 0}
+    for job, m, res in zip(sjobs, smeta, sresults):
+        if res.get("watchdog"):
+            unoptimised["watchdog"] += 1
+            continue
+        evaluated += 1
+        replay_files = {"in/" + k: c for k, c in m["files"].items()}
+        replay_files["start.txt"] = m["start"]
+        via = m["label"].split(":", 1)[1]
+        if "died" in res:
+            unoptimised["died"] += 1
+            v.violation(f"C13|{common.classify_death(res)}|via={via}|build=unoptimised",
+                        {"input": m["label"], "stderr": res.get("stderr", "")[-300:], "start": m["start"]}, replay_files)
+        elif res["calls"][0]["outcome"] == "panic":
+            unoptimised["panicked"] += 1
+            pn = res["calls"][0].get("panic") or {}
+            v.violation(f"C13|panic|stage={res['calls'][0].get('stage')}|via={via}|build=unoptimised|msg={_norm_msg(pn.get('msg'))}",
+                        {"input": m["label"], "panic": pn, "start": m["start"]}, replay_files)
     for label in ("grammar:recursion:ref-self", "grammar:colliding-namespaces:n=300", "grammar:start-file-missing"):
         samples.append({"grammar_case": label})
     cov = {
@@ -1116,7 +1148,10 @@ def c13(tier):
                 "reference fan-out, colliding namespaces, deep nesting, WSDL wiring errors, API misuse); stream 3 (thorough): inputs that a "
                 "coverage-guided fuzzer (cargo fuzz, tools/fuzz) kept or saved as artifacts, re-judged here. Each input runs "
                 "read_xml+write_xml in a zdrive child under catch_unwind, RLIMIT_CPU (10 s + 1 s/50 kB) and an 8 MiB stack. "
+                "The grammar families whose verdict depends on the size of a stack frame (deep nesting, DTD entities, forward-reference and import chains, recursion, "
+                "same-named members) run a second time in a zdrive built without any optimisation (a user's debug build). "
                 "Non-trivial = got past XML parsing; distinct = distinct (stream, mutation-operator class, outcome class) triples",
+        "stack_families_in_an_unoptimised_build": unoptimised,
         "grammar_cases": n_grammar, "mutated_inputs": sum(1 for m in meta if m["label"].startswith("mutated:")),
         "coverage_guided_stream": fuzz_info, "past_xml_parsing": past_parse,
         "outcomes": outcomes, "inconclusive_cases": inconclusive, "samples": samples,
@@ -1124,5 +1159,6 @@ def c13(tier):
     if inconclusive > len(jobs) * 0.1:
         v.inconclusive = f"{inconclusive} of {len(jobs)} inputs hit the wall-clock watchdog"
     v.finish(cov, assumptions=["outcome classes are observed at the process boundary: result line, caught panic (hook), death by signal, RLIMIT_CPU",
-                               "dev profile (debug assertions and overflow checks on) — stricter than a release build"],
+                               "dev profile (debug assertions and overflow checks on) — stricter than a release build; opt-level 1 for speed, opt-level 0 for the stack families",
+                               "the stack is 8 MiB (the main thread of the command line program); a caller that runs the library on a smaller stack has smaller limits"],
              min_evaluations=1000)
